@@ -215,7 +215,7 @@ var errInjected = errors.New("injected read error")
 type scriptR struct {
 	data  []byte
 	pos   int
-	chunk int // 0 whole, 1 byte-wise, 2 varying, 3 data together with the final error
+	chunk int // 0 whole, 1 byte-wise, 2 varying 1..5, 3 data together with the final error, 4/5/6 = 1500/4096/32768 bytes per Read
 	inj   bool
 	k     int
 }
@@ -240,6 +240,12 @@ func (r *scriptR) Read(p []byte) (int, error) {
 	case 2:
 		r.k++
 		n = 1 + (r.k*7+len(r.data))%5
+	case 4:
+		n = 1500
+	case 5:
+		n = 4096
+	case 6:
+		n = 32768
 	}
 	if n > len(p) {
 		n = len(p)
@@ -306,6 +312,12 @@ func init() {
 	reg("sw", func(a []string) string {
 		uw := &scriptW{}
 		return runCalls(iohelper.NewSectionWriter(uw, mustI64(a[0]), mustI64(a[1])), uw, a[2])
+	})
+	// swn off1 n1 off2 n2 calls: the calls go to a section (off2, n2) of a section (off1, n1) of the scripted writer
+	reg("swn", func(a []string) string {
+		uw := &scriptW{}
+		inner := iohelper.NewSectionWriter(uw, mustI64(a[0]), mustI64(a[1]))
+		return runCalls(iohelper.NewSectionWriter(inner, mustI64(a[2]), mustI64(a[3])), uw, a[4])
 	})
 	reg("atw", func(a []string) string {
 		uw := &scriptW{}
